@@ -106,7 +106,7 @@ Proof. exact extract_damaged_nonzero. Qed.
 Print Assumptions C19_extract_damaged_nonzero.
 
 (* t: `cli_status CmdT L = Some 0 <-> test_success L = true` is FALSE: a folder-level CRC mismatch
-   (CrcError whose filename is None, py7zr.py l.1509) makes testzip() return None = "good"; the same
+   (CrcError whose filename is None, raised by Worker.decompress) makes testzip() return None = "good"; the same
    archive makes x exit 1 *)
 Theorem C19_exit_status_truthful_t_refuted :
   exists L, cli_status CmdT L = Some 0 /\ test_success L = false /\ l_work L = Some (XCrc false)
